@@ -221,6 +221,14 @@ def parseOne (maxStrLen : Nat) (buf : Bytes) : Except DErr (Rep × Bytes) :=
 def callEmit (d : Dec) (f : Field) : Except DErr Unit :=
   if d.maxStrLen ≠ 0 ∧ (f.name.length > d.maxStrLen ∨ f.value.length > d.maxStrLen) then .error .strLen else .ok ()
 
+/-- the name of a literal representation: from the table when a name index is given -/
+def Dec.resolveName (d : Dec) (nameIdx : Nat) (name : Bytes) : Except DErr Bytes :=
+  if nameIdx > 0 then
+    match d.at nameIdx with
+    | none => .error .invalid
+    | some e => .ok e.1
+  else .ok name
+
 /-- the table half of `parseFieldIndexed` / `parseFieldLiteral` / `parseDynamicTableSizeUpdate`: new decoder state
 and the field emitted -/
 def Dec.apply (d : Dec) : Rep → Except DErr (Dec × Option Field)
@@ -233,13 +241,7 @@ def Dec.apply (d : Dec) : Rep → Except DErr (Dec × Option Field)
       | .error e => .error e
       | .ok _ => .ok ({ d with firstField := false }, some f)
   | .literal k nameIdx name value =>
-    let nameR : Except DErr Bytes :=
-      if nameIdx > 0 then
-        match d.at nameIdx with
-        | none => .error .invalid
-        | some e => .ok e.1
-      else .ok name
-    match nameR with
+    match d.resolveName nameIdx name with
     | .error e => .error e
     | .ok name =>
       let d' := if k = .incremental then { d with tab := d.tab.add (name, value) } else d
@@ -274,6 +276,11 @@ def decodeLoop : Nat → Dec → Bytes → List Field → Except DErr (Dec × Li
 def Dec.decodeFull (d : Dec) (block : Bytes) : Except DErr (Dec × List Field) :=
   decodeLoop (block.length + 1) d block []
 
+def consOpt (f : Option Field) (fs : List Field) : List Field :=
+  match f with
+  | some f => f :: fs
+  | none => fs
+
 /-- the decoder run on representations instead of bytes (what `decodeFull ∘ serialize` computes) -/
 def Dec.applyAll (d : Dec) : List Rep → Except DErr (Dec × List Field)
   | [] => .ok ({ d with firstField := true }, [])
@@ -283,6 +290,6 @@ def Dec.applyAll (d : Dec) : List Rep → Except DErr (Dec × List Field)
     | .ok (d', f) =>
       match Dec.applyAll d' rs with
       | .error e => .error e
-      | .ok (d'', fs) => .ok (d'', (match f with | some f => f :: fs | none => fs))
+      | .ok (d'', fs) => .ok (d'', consOpt f fs)
 
 end MosnVerif.Model.HpackTable
